@@ -104,7 +104,9 @@ func (s *System) Logger() log.Logger {
 
 func (s *System) ActorOf(actor vivid.Actor, options ...vivid.ActorOption) (vivid.ActorRef, error) {
 	s.actorOfLock.Lock()
+	verifhook.At("lock.acq", s.Context, "actorOfLock")
 	defer s.actorOfLock.Unlock()
+	defer verifhook.At("lock.rel", s.Context, "actorOfLock")
 
 	return s.Context.ActorOf(actor, options...)
 }
